@@ -388,6 +388,19 @@ def run_opt_case(case, stats):
                 # its skip target; the root itself must be a Select
                 if n is res:
                     raise Violation("factory-result-not-select", f"{final[0]} with {label} on {fmt(base, leaves)} returned {type(res).__name__} {res}", symptom="opt")
+            from lsst.daf.relation import Transfer
+
+            for n in lib_nodes(res):
+                # the SQL relation a transfer reads from was produced by the factories as well (possibly by backtracking)
+                if isinstance(n, Transfer) and n.target.engine is env.sql:
+                    t = n.target
+                    if not isinstance(t, Select) or env.sql.conform(t) is not t:
+                        raise Violation(
+                            "factory-result-not-select",
+                            f"{final[0]} with {label} on {fmt(base, leaves)}: the SQL relation below a transfer of the result is not conformed: {type(t).__name__} {str(t)[:300]}",
+                            symptom="opt-upstream",
+                        )
+                    seen_sql += 1
             if res.engine is env.sql:
                 seen_sql += 1
                 if env.sql.conform(res) is not res:
